@@ -307,7 +307,65 @@ def oracle_wf(ctx, case, steps, parser):
     return parser
 
 
+def late_messages(rng, base):
+    """for one task of `base` whose root is an action: a plain message and a started, unfinished action below the root, at the
+    positions after the root's end message"""
+    roots = [m for m in base if len(m["level"]) == 1 and m.get("status") in ("succeeded", "failed")]
+    if not roots:
+        return []
+    end = rng.choice(roots)
+    n = end["level"][0]
+    top = max(m["body"] for m in base) + 1000
+    return [dict(uuid=end["uuid"], level=[n + 1], body=top),
+            dict(uuid=end["uuid"], level=[n + 2, 1], atype="late", status="started", body=top + 1),
+            dict(uuid=end["uuid"], level=[n + 2, 2], body=top + 2)]
+
+
+def count_messages(node):
+    from eliot._message import WrittenMessage
+    if isinstance(node, WrittenMessage):
+        return 1
+    return (node.start_message is not None) + (node.end_message is not None) + sum(count_messages(c) for c in node._children.values())
+
+
+def nothing_lost(ctx, case):
+    """model-free: every message fed to parse_stream is in exactly one of the tasks it yields"""
+    from eliot.parse import Parser
+    try:
+        tasks = list(Parser.parse_stream([to_dict(m) for m in case["msgs"]]))
+    except Exception as e:  # noqa
+        ctx.violation("parse_stream raised %s on a history whose tasks go on after their root action ended" % type(e).__name__, case)
+        return
+    got = sum(count_messages(t.root()) for t in tasks if t._nodes.get(t._root_level) is not None)
+    if got != len(case["msgs"]):
+        ctx.violation("parse_stream was fed %d messages (%d of them logged in a task after its root action had ended) but the tasks it "
+                      "yielded hold %d" % (len(case["msgs"]), case.get("nlate", 0), got), case)
+
+
+def many_in_flight(ctx):
+    """more tasks pending at the same time than any bound an implementation might have picked (1100): every task is handed
+    back exactly once, complete, at the step that delivers its last message, whatever the interleaving; oracle only"""
+    from eliot.parse import Parser
+    n = 1100
+    starts = [dict(uuid="t%d" % i, level=[1], atype="a", status="started", body=2 * i) for i in range(n)]
+    ends = [dict(uuid="t%d" % i, level=[2], atype="a", status="succeeded", body=2 * i + 1) for i in range(n)]
+    case = dict(kind="many-in-flight", tasks=n, order="all starts, then all ends")
+    ctx.case(case, nontrivial=True, tags=["kind:many-in-flight"])
+    p = Parser()
+    handed = []
+    for k, m in enumerate(starts + ends):
+        done, p = p.add(to_dict(m))
+        for t in done:
+            handed.append((k, t.root().task_uuid, t.is_complete()))
+    want = [(n + i, "t%d" % i, True) for i in range(n)]
+    if handed != want or len(p._tasks) != 0:
+        first = next((i for i, (a, b) in enumerate(zip(handed, want)) if a != b), min(len(handed), len(want)))
+        ctx.violation("%d tasks pending at once: tasks were handed back at (step, uuid, complete) = %s ..., expected %s ...; %d left in the parser"
+                      % (n, handed[first:first + 3], want[first:first + 3], len(p._tasks)), case)
+
+
 def run(ctx):
+    many_in_flight(ctx)
     rng = ctx.rng("gen")
     ngroups = ctx.budget(90, 2500)
     norders = ctx.budget(6, 14)
@@ -347,6 +405,12 @@ def run(ctx):
             p = list(base)
             rng.shuffle(p)
             cases.append(dict(kind="malformed", group="%d/mal" % g, order="shuffle", spec=total, msgs=malform(rng, p),
+                              ntasks=ntasks, depth=depth))
+        if g % 4 == 1 and base:
+            # messages logged in a task after its root action has ended (a background task that inherited the context, a
+            # generator finalised later): they come after the task was handed back complete, and must not vanish
+            late = late_messages(rng, base)
+            cases.append(dict(kind="late", group="%d/late" % g, order="emission", spec=total, msgs=list(base) + late, nlate=len(late),
                               ntasks=ntasks, depth=depth))
     model = lean_driver("Driver/C09.lean", [{"msgs": c["msgs"]} for c in cases])
     finals = {}
@@ -408,6 +472,8 @@ def run(ctx):
         else:
             flat_traces += 1
             ctx.count("flat_adds", n=len(fr))
+        if c["kind"] == "late":
+            nothing_lost(ctx, c)
         if wf:
             p = oracle_wf(ctx, c, steps, parser)
             if p is not None:
@@ -439,6 +505,12 @@ def replay(ctx, obj):
         b = run_real(case["second"])[1]
         if a is None or b is None or dict(a._tasks.items()) != dict(b._tasks.items()):
             ctx.violation("final parser result depends on arrival order", case)
+        return
+    if case.get("kind") == "many-in-flight":
+        many_in_flight(ctx)
+        return
+    if case.get("kind") == "late":
+        nothing_lost(ctx, case)
         return
     c = dict(case)
     steps, parser = run_real(c["msgs"])
